@@ -332,6 +332,9 @@ func (ft *FuncTr) applyContract(st *State, at *Term, in ssa.Instruction, name st
 		if !am.whole {
 			ft.assume(at, frameCond(am, before, after, oldNext))
 		}
+		if !am.whole && len(am.locs) == 0 {
+			ft.h.noteFreshFrame(before, after, oldNext)
+		}
 	}
 	for _, n := range sortedKeys(ms.ghost) {
 		nv := ft.d.Fresh("g_"+n+"_c", ms.ghost[n])
